@@ -192,16 +192,18 @@ NewSame ==
          recs' = Append(recs, [Blank EXCEPT !.kind = "SAME", !.size = recs[Len(recs)].size, !.bare = b, !.first = NEtas(recs) + 1])
     /\ UNCHANGED <<phase, bs, steps, touched, nadd>>
 
-LayoutHash(rs) == LET RECURSIVE H(_)
-                      H(k) == IF k > Len(rs) THEN 0
-                              ELSE (k + 1) * ((IF rs[k].kind = "DIAG" THEN 3 ELSE IF rs[k].kind = "BLOCK" THEN 5 ELSE 7)
-                                              + 11 * rs[k].size + 13 * Len(rs[k].items) + (IF rs[k].fix THEN 17 ELSE 0)
-                                              + (IF rs[k].scale \in {"VR", "SR"} THEN 19 ELSE IF rs[k].scale = "CH" THEN 23 ELSE 0)
-                                              + (IF rs[k].hdr THEN 29 ELSE 0) + (IF rs[k].named THEN 31 ELSE 0)
-                                              + (IF Len(rs[k].items) > 0 /\ rs[k].items[1].fix THEN 37 ELSE 0)
-                                              + (IF Len(rs[k].items) > 0 /\ rs[k].items[1].sd THEN 41 ELSE 0)
-                                              + (IF Len(rs[k].items) > 0 /\ rs[k].items[1].rep > 1 THEN 43 ELSE 0)) + H(k + 1)
-                  IN H(1)
+RecCode(rc) == (IF rc.kind = "DIAG" THEN 3 ELSE IF rc.kind = "BLOCK" THEN 5 ELSE 7)
+               + 11 * rc.size + 13 * Len(rc.items) + (IF rc.fix THEN 17 ELSE 0)
+               + (IF rc.scale = "SC" THEN 19 ELSE IF rc.scale = "VR" THEN 23 ELSE IF rc.scale = "SR" THEN 29 ELSE IF rc.scale = "CH" THEN 31 ELSE 0)
+               + (IF rc.hdr THEN 37 ELSE 0) + (IF rc.named THEN 41 ELSE 0) + (IF rc.bare THEN 43 ELSE 0)
+               + (LET RECURSIVE I(_) I(k) == IF k > Len(rc.items) THEN 0
+                                             ELSE (k + 1) * ((IF rc.items[k].fix THEN 47 ELSE 0) + (IF rc.items[k].sd THEN 53 ELSE 0)
+                                                             + 59 * rc.items[k].rep + (IF rc.items[k].name # "" THEN 61 ELSE 0)
+                                                             + (IF rc.items[k].par THEN 67 ELSE 0)) + I(k + 1)
+                  IN I(1))
+LayoutHash(rs) == LET RECURSIVE H(_, _)
+                      H(k, acc) == IF k > Len(rs) THEN acc ELSE H(k + 1, (acc * 131 + RecCode(rs[k])) % 10007)
+                  IN H(1, 7)
 StartEdit ==
     /\ phase = "build" /\ Len(recs) > 0
     /\ NSlices = 1 \/ LayoutHash(recs) % NSlices = Slice
@@ -235,6 +237,7 @@ Feat(b) == [src_kind |-> IF b.src = <<0, 0>> THEN "NEW" ELSE recs[b.src[1]].kind
             item_sd |-> b.src # <<0, 0>> /\ b.src[2] > 0 /\ recs[b.src[1]].items[b.src[2]].sd,
             rec_items |-> IF b.src = <<0, 0>> THEN 0 ELSE Len(recs[b.src[1]].items),
             rec_last_item |-> b.src # <<0, 0>> /\ b.src[2] > 0 /\ b.src[2] = Len(recs[b.src[1]].items),
+            last_of_multi |-> b.src # <<0, 0>> /\ b.src[2] > 1 /\ b.src[2] = Len(recs[b.src[1]].items),
             rec_has_repeat |-> b.src # <<0, 0>> /\ \E i \in 1..Len(recs[b.src[1]].items) : recs[b.src[1]].items[i].rep > 1,
             size |-> Len(b.etas), fixed |-> b.fix, iov |-> FALSE,
             block_rep |-> b.src # <<0, 0>> /\ recs[b.src[1]].rep]
@@ -291,6 +294,7 @@ StructTouch(b) == IF b.src = <<0, 0>> THEN {}
 (* remove_iiv(model, eta): the eta disappears, its block loses the row and column *)
 RemoveEta(k, i) ==
     /\ Editing /\ Structural /\ k \in 1..Len(bs) /\ ~IsIov(k) /\ i \in 1..Len(bs[k].etas)
+    /\ ~bs[k].fix                                          \* remove_iiv refuses fixed etas (ValueError)
     /\ Len(AllEtas) > 1                                    \* at least one eta remains
     /\ LET b == bs[k]
            q == ReplaceBlock(k, IF Len(b.etas) = 1 THEN <<>> ELSE <<Shrink(b, i)>>)
@@ -316,6 +320,7 @@ Join(S) ==
        IN /\ bs' = q /\ touched' = t
           /\ steps' = Append(steps, Step([op |-> "Join", etas |-> nb.etas],
                                          [Feat(bs[ks[1]]) EXCEPT !.rec_last_item = \E k \in S : Feat(bs[k]).rec_last_item,
+                                                                 !.last_of_multi = \E k \in S : Feat(bs[k]).last_of_multi,
                                                                  !.in_repeat = \E k \in S : Feat(bs[k]).in_repeat,
                                                                  !.item_sd = \E k \in S : Feat(bs[k]).item_sd,
                                                                  !.rec_has_repeat = \E k \in S : Feat(bs[k]).rec_has_repeat], q, t))
@@ -323,6 +328,7 @@ Join(S) ==
 (* split_joint_distribution(model, eta): eta leaves its block and keeps its variance *)
 Split(k, i) ==
     /\ Editing /\ Structural /\ k \in 1..Len(bs) /\ ~IsIov(k) /\ Len(bs[k].etas) >= 2 /\ i \in 1..Len(bs[k].etas)
+    /\ ~bs[k].fix
     /\ ~HasAny(bs[k].m)
     /\ LET b == bs[k]
            one == [etas |-> <<b.etas[i]>>, m |-> <<<<b.m[i][i]>>>>, fix |-> b.fix, same |-> FALSE,
